@@ -147,6 +147,26 @@ func (w *runWorld) ctor(key string) (keyed.Routine, int) {
 	}, w.nextTok
 }
 
+// conds draws the optional condition functions of Restart/Reset calls: they
+// take a few scheduling steps (the container calls them with its lock held) and
+// the call acts if any of them returns true.
+func (w *runWorld) conds() []func(string, int) bool {
+	c := w.c
+	if !c.S.PlanP(400) {
+		return nil
+	}
+	var out []func(string, int) bool
+	for n := c.IntRange(1, 2); n > 0; n-- {
+		res, k := c.S.PlanP(700), c.S.Plan(3)
+		out = append(out, func(string, int) bool {
+			c.S.Count("probe:cond-evaluated")
+			core.YieldN("keyedx.cond", k)
+			return res
+		})
+	}
+	return out
+}
+
 func (w *runWorld) maybeGate() {
 	if w.c.S.PlanP(250) {
 		g := make(chan struct{})
@@ -253,24 +273,24 @@ func (w *runWorld) keyStep(id, i int) {
 			}
 		case k < 13:
 			c.Descf("driver %d: RestartRoutine(%q)", id, key)
-			if _, reset := w.k.RestartRoutine(key); reset {
+			if _, reset := w.k.RestartRoutine(key, w.conds()...); reset {
 				c.S.Count("probe:restart-true")
 			}
 		case k < 15:
 			c.Descf("driver %d: ResetRoutine(%q)", id, key)
 			w.inReset[me] = true
-			_, reset := w.k.ResetRoutine(key)
+			_, reset := w.k.ResetRoutine(key, w.conds()...)
 			w.inReset[me] = false
 			if reset {
 				c.S.Count("probe:reset-true")
 			}
 		case k < 16:
 			c.Descf("driver %d: RestartAllRoutines", id)
-			w.k.RestartAllRoutines()
+			w.k.RestartAllRoutines(w.conds()...)
 		case k < 17:
 			c.Descf("driver %d: ResetAllRoutines", id)
 			w.inReset[me] = true
-			w.k.ResetAllRoutines()
+			w.k.ResetAllRoutines(w.conds()...)
 			w.inReset[me] = false
 		default:
 			w.k.GetKeys()
